@@ -115,13 +115,9 @@ impl Value for il::Constant {
     proof fn lemma_debug_law(&self) {}
 
 //@ fn impl Value for il::Constant :: fn constant nopub
-//@ spec
-    ensures /*@same*/ r == constant,
 //@ end
 
 //@ fn impl Value for il::Constant :: fn bits nopub
-//@ spec
-    ensures /*@width*/ r == self.bits,
 //@ end
 
 //@ fn impl Value for il::Constant :: fn shl nopub
@@ -155,10 +151,6 @@ impl Value for il::Constant {
 //@ end
 
 //@ fn impl Value for il::Constant :: fn trun nopub
-//@ spec
-    ensures
-        /*@sort*/ bits >= self.bits ==> is_sort_err(r),
-        /*@ok*/ bits < self.bits ==> is_const(r, bits as nat, bv_trun(bits as nat, self.value@)),
 //@ enter
     proof {
         reveal_with_fuel(eval_spec, 3);
@@ -172,10 +164,6 @@ impl Value for il::Constant {
 //@ end
 
 //@ fn impl Value for il::Constant :: fn zext nopub
-//@ spec
-    ensures
-        /*@sort*/ bits <= self.bits ==> is_sort_err(r),
-        /*@ok*/ bits > self.bits ==> is_const(r, bits as nat, bv_zext(self.value@)),
 //@ enter
     proof {
         reveal_with_fuel(eval_spec, 3);
@@ -189,10 +177,6 @@ impl Value for il::Constant {
 //@ end
 
 //@ fn impl Value for il::Constant :: fn or nopub
-//@ spec
-    ensures
-        /*@sort*/ self.bits != other.bits ==> is_sort_err(r),
-        /*@ok*/ self.bits == other.bits ==> is_const(r, self.bits as nat, bv_or(self.bits as nat, self.value@, other.value@)),
 //@ enter
     proof {
         reveal_with_fuel(eval_spec, 3);
